@@ -182,7 +182,55 @@ def listOf {α : Type} (j : Json) (k : String) (f : Json → D α) : D (List α)
   | none => pure []
   | some l => l.mapM f
 
-def decSpec (j : Json) : D Spec := do
+/-- `int(raw_version)` for a JSON number (truncation), `none` when absent -/
+def versionOf (j : Json) : D (Option Int) :=
+  match field j "version" with
+  | none => pure none
+  | some (Json.num n) => pure (some (Int.tdiv n.mantissa ((10 : Int) ^ n.exponent)))
+  | some _ => ood "version not a number"
+
+def jtypeOf (s : String) : D JType :=
+  match s with
+  | "integer" => pure .integer
+  | "number" => pure .number
+  | "string" => pure .string
+  | "boolean" => pure .boolean
+  | "object" => pure .object
+  | "array" => pure .array
+  | "null" => pure .null
+  | _ => ood s!"schema type {s}"
+
+def jkindOf (s : String) : D JKind :=
+  match s with
+  | "null" => pure .null
+  | "bool" => pure .bool
+  | "int" => pure .int
+  | "intFloat" => pure .intFloat
+  | "float" => pure .float
+  | "str" => pure .str
+  | "arr" => pure .arr
+  | "obj" => pure .obj
+  | _ => ood s!"json kind {s}"
+
+/-- `typed`: [[declared type, kind], …] computed by the harness from the schema file and the raw document -/
+def decTyped (a : Json) : D (List (JType × JKind)) := do
+  match a.getObjVal? "typed" with
+  | .error _ => pure []
+  | .ok v =>
+    let l ← v.getArr?
+    l.toList.mapM (fun p => do
+      let t ← p.getArrVal? 0
+      let k ← p.getArrVal? 1
+      let ts ← t.getStr?
+      let ks ← k.getStr?
+      pure (← jtypeOf ts, ← jkindOf ks))
+
+def emptySpec (v : Option Int) (typed : List (JType × JKind)) : Spec :=
+  { version := v, description := none, metaData := [], indices := [], dataStreams := [], corpora := [],
+    operations := [], parameters := [], schedule := none, challenge := none, challenges := none,
+    dependencies := [], typed := typed }
+
+def decSpec (j : Json) (typed : List (JType × JKind)) : D Spec := do
   let _ ← kvs j
   let challenge ← (match field j "challenge" with
     | none => pure none
@@ -197,7 +245,7 @@ def decSpec (j : Json) : D Spec := do
   let deps ← (match ← fArr j "dependencies" with
     | none => pure []
     | some l => strList l)
-  pure { version := ← fInt j "version", description := ← fStr j "description", metaData := ← fObj j "meta",
+  pure { typed := typed, version := ← versionOf j, description := ← fStr j "description", metaData := ← fObj j "meta",
          indices := ← listOf j "indices" decIndex,
          dataStreams := ← listOf j "data-streams" (fun d => do let _ ← kvs d; fStr d "name"),
          corpora := ← listOf j "corpora" decCorpus, operations := ← listOf j "operations" decOp,
@@ -277,7 +325,14 @@ def errJson (e : Err) : Json :=
 def handle (op : String) (a : Json) : Except String Json := do
   match op with
   | "load" =>
-    let spec ← decSpec (← a.getObjVal? "spec")
+    let typed ← decTyped a
+    let sj ← a.getObjVal? "spec"
+    -- a document that violates a declared type cannot be viewed as a typed `Spec`: only the version and the
+    -- (type, kind) pairs matter for the outcome (`load_rejects_schema_type`)
+    let spec ← (if typed.any (fun p => !typeOk p.1 p.2) then do
+        let v ← versionOf sj
+        pure (emptySpec v typed)
+      else decSpec sj typed)
     let sel ← getOptStr a "sel"
     let user ← getStrList a "user"
     let used ← getStrList a "used"
@@ -285,7 +340,7 @@ def handle (op : String) (a : Json) : Except String Json := do
     | .ok t => return ok (encTrack t) ["ok"]
     | .error e => return errJson e
   | "denote" =>
-    let spec ← decSpec (← a.getObjVal? "spec")
+    let spec ← decSpec (← a.getObjVal? "spec") []
     let sel ← getOptStr a "sel"
     return ok (encTrack (denote RallyGen.OpTypes.table sel spec))
   | "from_hyphenated" =>
